@@ -414,6 +414,25 @@ class ValGen:
             return (mv[0], self.same_shape(t["m"][mv[0]], mv[1], sub))
 
 
+def decap(t, v):
+    """The value with every capacity-created string replaced by the plain empty string (what is known about the
+    room of a string after it went through a copy: at least the room of its text)."""
+    k = t["k"]
+    if v is None:
+        return None
+    if k == "str":
+        return "" if isinstance(v, CapStr) else v
+    if k == "st":
+        return {fn: decap(ft, v[fn]) for fn, ft in t["f"]}
+    if k == "ar":
+        return AVal(v.shape, {i: decap(t["it"], x) for i, x in v.items.items()})
+    if k == "ref":
+        return decap(t["to"], v)
+    if k == "ur":
+        return (v[0], decap(t["m"][v[0]], v[1]))
+    return v
+
+
 def merge_caps(t, caps, newv):
     """Capacity tree after assigning `newv` over storage created from `caps`: in-place parts keep the capacity
     fixed at creation, reference targets are (re)created from the new value."""
